@@ -47,17 +47,28 @@ SPEC = {
              "unless the gun's context ends it (fake.GunPlan.ShotCtx). LOGGER: one case in twelve and half of the crowded ones give the "
              "engine a debug (or info) level logger instead of the nop one, whose output costs the logging goroutine 0, 20, 100 or 200 us "
              "per entry (the pool's await loop logs every awaited result at debug level). "
+             "WAIT MEANS OVER: every call the engine makes into a component of a pool (gun factory, WarmUp, Bind, Provider.Run, "
+             "Aggregator.Run, schedule factory, Shoot) is recorded with the instant it STARTED; Engine.Wait is called the way the cli "
+             "and a library user call it - straight after Engine.Run returned, from the same goroutine - and once no goroutine of the "
+             "engine is left, none of the recorded calls may have started after the instant Wait returned (a panic out of Run / Wait "
+             "themselves is a failure as well). The runs in which that matters are those that are over before the engine has got all "
+             "its pools going: a context that is already cancelled or cancelled 0-50 us into Run (as before), and - new - one case in "
+             "ten has 4-8 pools, and two thirds of the failing many-pool runs (one in eight of the other failing runs with several "
+             "pools) fail AT ONCE, mostly without any delay, at a first step of the faulty pool (creation of the warm-up gun, WarmUp, shared "
+             "schedule, first Bind, provider before its first ammo, aggregator as it starts) while the goroutines of the other pools "
+             "may not have begun; counted (over the 3 runs of a case): a pool made its first step after Wait had been called, by "
+             "what ended the run. "
              "TestKnownWitness: the fixed witness of finding engine-own-cancel-wrapped-by-provider-fails-run (repaired; a profile without "
              "a single shot next to a real provider that is still preloading / initialising a middleware: the engine's own cancel came "
              "back wrapped with %w and was reported as 'provider failed'), judged by the same oracle as a plain regression case; the "
              "generator produces that shape as well (class real_provider_pool_without_a_shot). "
              "Non-trivial = a fault was actually reached or the cancel arrived while Run was in progress; distinct = hash of the case."),
-    "floors": {"TestOutcome/fault_provider": 0.05, "TestOutcome/fault_aggregator": 0.036, "TestOutcome/fault_sched": 0.02,
-               "TestOutcome/fault_factory": 0.015, "TestOutcome/fault_bind": 0.02, "TestOutcome/fault_warmup": 0.013,
+    "floors": {"TestOutcome/fault_provider": 0.05, "TestOutcome/fault_aggregator": 0.028, "TestOutcome/fault_sched": 0.013,
+               "TestOutcome/fault_factory": 0.015, "TestOutcome/fault_bind": 0.015, "TestOutcome/fault_warmup": 0.013,
                "TestOutcome/fault_shot_panic": 0.01, "TestOutcome/cancel_in_progress": 0.1, "TestOutcome/pools_gt_1": 0.2,
-               "TestOutcome/provider_fault_at_end": 0.02, "TestOutcome/aggregator_fault_at_end": 0.02,
-               "TestOutcome/own_deadline_error_at_end": 0.011, "TestOutcome/err_shape_pkg_wrapped": 0.02,
-               "TestOutcome/panic_kind_int": 2, "TestOutcome/panic_kind_struct": 2, "TestOutcome/panic_kind_runtime": 2,
+               "TestOutcome/provider_fault_at_end": 0.02, "TestOutcome/aggregator_fault_at_end": 0.011,
+               "TestOutcome/own_deadline_error_at_end": 0.0084, "TestOutcome/err_shape_pkg_wrapped": 0.02,
+               "TestOutcome/panic_kind_int": 2, "TestOutcome/panic_kind_struct": 2, "TestOutcome/panic_kind_runtime": 1,
                "TestOutcome/pool_ids_equal": 0.07, "TestOutcome/pool_id_equals_default_name_of_other": 0.04,
                "TestOutcome/pool_ids_equal_and_fault_reached": 0.03, "TestOutcome/cancel_inside_blind_step": 0.02,
                "TestOutcome/cancel_inside_long_blind_step": 8, "TestOutcome/cancel_inside_long_blind_startup_step_other_pools_done": 5,
@@ -68,22 +79,32 @@ SPEC = {
                "TestOutcome/slow_gun_close_result_nil": 0.03, "TestOutcome/slow_gun_close_result_ctx_err": 0.022,
                "TestOutcome/slow_gun_close_result_fault": 0.05,
                "TestOutcome/real_provider": 0.07, "TestOutcome/real_provider_raw": 10, "TestOutcome/real_provider_jsonline": 12,
-               "TestOutcome/real_provider_failed_before_first_ammo_instances_in_acquire": 0.015,
-               "TestOutcome/real_provider_failed_in_preload_instances_in_acquire": 0.012,
-               "TestOutcome/real_provider_failed_in_preload_malformed_instances_in_acquire": 0.009,
+               "TestOutcome/real_provider_failed_before_first_ammo_instances_in_acquire": 0.011,
+               "TestOutcome/real_provider_failed_in_preload_instances_in_acquire": 0.0089,
+               "TestOutcome/real_provider_failed_in_preload_malformed_instances_in_acquire": 0.0064,
                "TestOutcome/real_provider_failed_file_without_entries": 6, "TestOutcome/real_provider_failed_mid_run": 1,
                "TestOutcome/real_provider_healthy_result_nil": 8,
                "TestOutcome/crowd_gt_64_instances_started": 10, "TestOutcome/crowd_gt_250_instances_started": 3,
                "TestOutcome/crowd_ended_by_cancel": 5, "TestOutcome/crowd_ended_by_failure": 3,
-               "TestOutcome/crowd_debug_log": 4, "TestOutcome/crowd_nop_log": 4,
-               "TestOutcome/crowd_requests_end_with_context": 3, "TestOutcome/crowd_in_schedule_wait": 4,
-               "TestOutcome/log_debug": 0.02},
+               "TestOutcome/crowd_debug_log": 4, "TestOutcome/crowd_nop_log": 3,
+               "TestOutcome/crowd_requests_end_with_context": 3, "TestOutcome/crowd_in_schedule_wait": 1,
+               "TestOutcome/log_debug": 0.02,
+               "TestOutcome/pools_gt_3": 0.04,
+               "TestOutcome/pool_began_after_wait_was_called": 0.08,
+               "TestOutcome/pool_began_after_wait_was_called_pool_0": 0.07,
+               "TestOutcome/pool_began_after_wait_was_called_context_cancelled_before_run": 0.03,
+               "TestOutcome/pool_began_after_wait_was_called_cancel_during_run": 0.035,
+               "TestOutcome/pool_began_after_wait_was_called_other_pool_failed": 0.015,
+               "TestOutcome/pool_began_after_wait_was_called_other_pool_failed_at_once": 0.015,
+               "TestOutcome/pool_began_after_wait_was_called_gt_3_pools": 0.012},
     "manifest": {
         "technique": "fault-injection property testing (rapid) of the real engine with recording doubles and, for the ammo provider, also pandora's real http provider on malformed / entry-less files; outcome oracle from which faults were actually reached",
         "text": ("Generated fault/cancel plans are run against the real engine; the doubles record which injected fault actually returned "
                  "its error. Result must be nil iff nothing failed and no in-progress cancel cut work short, must carry a reached fault "
                  "or the context error otherwise; afterwards Engine.Wait returns, provider/aggregator Run returned, InstanceStart = "
-                 "InstanceFinish, bound closable guns are closed exactly once - already at the instant Run returns nil / Wait returns, with "
+                 "InstanceFinish, no call into any component (gun factory, WarmUp, Bind, Provider.Run, Aggregator.Run, schedule factory, "
+                 "Shoot) started after the instant Engine.Wait - called straight after Run returned - returned, also when the run was over "
+                 "(context already cancelled, one of 4-8 pools failing at its first step) before every pool had begun, bound closable guns are closed exactly once - already at the instant Run returns nil / Wait returns, with "
                  "Close calls that take 1-50 ms - and no engine goroutine survives; the harness leaves its own context alone until then, so "
                  "after one pool's failure the engine itself has to stop pools that would otherwise shoot for a minute. Orderings of the engine's "
                  "result channels are those the Go scheduler produced over 3 runs per case (plus -race in thorough). One pool in seven reads "
